@@ -76,6 +76,10 @@ saturating_add saturating_sub min max eq ne lt le gt ge cmp partial_cmp into_ite
 push_str push_back pop_front front back view spec_index index deref borrow""".split())
 
 
+# constructors vstd specifies exactly (checked in this sandbox: the result's view is the argument / empty)
+STRONG_PATHS = set(['Rcvar::new', 'Rc::new', 'Arc::new', 'Box::new', 'Vec::new', 'Vec::with_capacity', 'String::new'])
+
+
 def call_names(gen, text):
     """names of the functions / methods / macros called from /repo lines of items under verification (after rewriting)"""
     ext_items = set(it['short'] for it in gen.items if it.get('external'))
@@ -127,6 +131,8 @@ def new_unknown_calls(unit, gen, text):
     types_here = set(re.findall(r'\b(?:struct|enum|trait)\s+([A-Za-z_]\w*)', text))
     out = []
     for n in sorted(now - set(base)):
+        if n in STRONG_PATHS:
+            continue
         if '::' in n:
             head, last = n.split('::')[0], n.split('::')[-1]
             if head in types_here or head in ('Self', 'self', 'crate', 'super') or last in ('Some', 'None', 'Ok', 'Err'):
